@@ -68,7 +68,13 @@ def explore(ctx: Ctx, projs: List[Dict[str, Any]], record_states: bool = False, 
             raise MachineryError(f"TLC printed {len(r.printed)} behaviours, expected {expected} (project x schedule)")
         for rec in r.printed:
             proj = part[rec["pid"] - 1]
-            real = P.real_build(proj, rec["sched"], ctx.scratch, record_states=record_states)
+            # every second behaviour is rebuilt with the lookups of Registry.tla asked after every registry action (Recorder.run_probe):
+            # they are pure operators in the model, so the build must end the same - the judges below do not know the difference
+            probe = ctx.traces % 2 == 1
+            real = P.real_build(proj, rec["sched"], ctx.scratch, record_states=record_states, probe=probe)
+            if probe:
+                ctx.extra["behaviours_rebuilt_with_interleaved_lookups"] = ctx.extra.get("behaviours_rebuilt_with_interleaved_lookups", 0) + 1
+                ctx.extra["interleaved_lookups_asked"] = ctx.extra.get("interleaved_lookups_asked", 0) + real["rec"].probes
             ctx.traces += 1
             res = {"pid": off * batch + rec["pid"], "project": proj, "sched": rec["sched"], "spec": rec, "real": real,
                    "drift": compare(rec, real)}
